@@ -2,6 +2,7 @@ import HdVerif.Model.Json
 import HdVerif.Model.PixelPipeline
 import HdVerif.Generated.T6g
 import HdVerif.Generated.T6i
+import HdVerif.Generated.T6p
 open Lean HdVerif HdVerif.Drv HdVerif.Gen HdVerif.PixelPipeline
 
 def getTri (v : Json) : Except String Tri :=
@@ -115,6 +116,12 @@ def handlers : List (String × Handler) := [
       (← getInt j "rmax") (← getStr j "out_kind") (← getStr j "in_kind") (← getInt j "out_max") (← getInt j "out_min")
       (← getInt j "in_max") (← getInt j "in_min")
     pure (exceptToJson (fun (b : Bool) => Json.bool b) r)),
+  ("outputRules", fun j => do
+    let r := outputRules (← getBool j "has_lut") (← getBool j "has_cm") (← getBool j "lut_dtype_differs") (← getBool j "in_float")
+      (← getBool j "has_si") (← getBool j "si_identity") (← getBool j "has_window") (← getStr j "out_kind") (← getStr j "in_kind")
+      (← getBool j "can_cast_safe") (← getStr j "color_type")
+    pure (exceptToJson (fun (p : Bool × Bool × Bool × Bool × Bool × Bool) =>
+      Json.mkObj [("has_si", Json.bool p.2.1), ("check_output_range", Json.bool p.2.2.2.2.1), ("color_output", Json.bool p.2.2.2.2.2)]) r)),
   ("presentationInverts", fun j => do
     let r := presentationInverts (← getBool j "apply") (← getBool j "has_shape") (← getStr j "shape") (← getStr j "photometric")
     pure (exceptToJson (fun (b : Bool) => Json.bool b) r)),
